@@ -11,4 +11,9 @@ open Strengths.Gen.PyIdioms
 and reads dictionaries by key) -/
 theorem filepath_value_semantic : valueSemantic inv_filepath = true := by decide +kernel
 
+/-- `filepath.py` never aliases an array on purpose: no `np.asarray`, `np.frombuffer`, `.view(…)`, `memoryview` — what a function
+returns is a fresh object (the model's values are immutable; this is the source fact that lets mutation of a returned
+object be ignored) -/
+theorem filepath_no_views : views_filepath = [] := by decide +kernel
+
 end Strengths.PyIdioms
